@@ -97,6 +97,31 @@ REGISTRIES = {
     },
 }
 
+# IANA assignments the pinned crate does NOT carry (yet), keyed by the name with everything but letters and digits dropped and
+# lower-cased: when a later version adds a variant whose name matches one of these, its integer is checked against the registry
+# as well (a registry update that swaps two neighbouring ids round-trips through the crate and is visible only here).  Only
+# entries whose registration is certain are listed (RFC 9459, RFC 9864, RFC 9053 references in the registries above); a new
+# name found neither here nor in REGISTRIES stays "unverifiable-new-name".
+NOT_IN_CRATE = {
+    "iana::Algorithm": {
+        "a128ctr": -65534, "a192ctr": -65533, "a256ctr": -65532, "a128cbc": -65531, "a192cbc": -65530, "a256cbc": -65529,
+        "esp256": -9, "esp384": -51, "esp512": -52, "ed25519": -19, "ed448": -53,
+        "esb256": -265, "esb320": -266, "esb384": -267, "esb512": -268,
+    },
+    "iana::HeaderParameter": {
+        "countersignaturev2": 11, "countersignatureversion2": 11, "countersignature0v2": 12, "countersignature0version2": 12,
+        "kcwt": 13, "kccs": 14, "cwtclaims": 15, "typ": 16,
+    },
+    "iana::KeyType": {"akp": 7},
+    "iana::EllipticCurve": {"brainpoolp256r1": 256, "brainpoolp320r1": 257, "brainpoolp384r1": 258, "brainpoolp512r1": 259},
+    "iana::CwtClaimName": {"nonce": 10, "ueid": 256, "sueids": 257},
+}
+
+
+def norm_name(name):
+    return "".join(ch for ch in name.lower() if ch.isalnum())
+
+
 # registries that have a private-use range, and its upper bound (exclusive): values < -65536
 PRIVATE_USE = {"iana::HeaderParameter": -65536, "iana::Algorithm": -65536, "iana::EllipticCurve": -65536, "iana::CwtClaimName": -65536}
 
